@@ -203,6 +203,13 @@ Fixpoint index_byte (s : string) (c : ascii) : option nat :=
     else match index_byte r c with Some n => Some (S n) | None => None end
   end.
 
+(* strings.SplitN(s, "=", 2): the text before the first '=' and, if there is one, the rest *)
+Fixpoint split_eq (s acc : string) : string * option string :=
+  match s with
+  | EmptyString => (srev acc, None)
+  | String a r => if Ascii.eqb a "="%char then (srev acc, Some r) else split_eq r (String a acc)
+  end.
+
 (** * Decimal printing of integers ([%d] / [%v] of an int). *)
 Definition dec (z : Z) : string := NilZero.string_of_int (Z.to_int z).
 Definition decN (n : N) : string := dec (Z.of_N n).
